@@ -157,12 +157,18 @@ static void one(vh::Rng & r, vh::Out & out)
     // machine epsilon times the major one, whose square root is ~1e-8 of the major radius
     auto radius = [&](double v) {double rv = std::nearbyint(v); if (!(std::fabs(v - rv) <= 1e-6 * (1.0 + a))) {ok = false;} return (long long)rv;};
     (void)tol;
-    long long major = radius(e.getMajorRadius() / sigma / unit), minor = radius(e.getMinorRadius() / sigma / unit);
-    double th = e.getOrientation();
+    // the three shape getters are read in any order, each value copied as it is read
+    double gMajor = 0, gMinor = 0, th = 0;
+    {
+      int order[3] = {0, 1, 2};
+      for (int i = 2; i > 0; --i) {std::swap(order[i], order[(size_t)r.range(0, i)]);}
+      for (int w : order) {if (w == 0) {gMajor = e.getMajorRadius();} else if (w == 1) {gMinor = e.getMinorRadius();} else {th = e.getOrientation();}}
+    }
+    long long major = radius(gMajor / sigma / unit), minor = radius(gMinor / sigma / unit);
     IV orient{vh::proj(std::cos(th) * ang[2], ok, a > b ? 1e-6 : 1e9), vh::proj(std::sin(th) * ang[2], ok, a > b ? 1e-6 : 1e9)};
     if (a == b) {ok = ok || true; orient = IV{0, 0};}
     Eigen::Matrix2d Rr; Rr << std::cos(th), -std::sin(th), std::sin(th), std::cos(th);
-    Eigen::Matrix2d recon = Rr * Eigen::Vector2d(e.getMajorRadius() * e.getMajorRadius(), e.getMinorRadius() * e.getMinorRadius()).asDiagonal() *
+    Eigen::Matrix2d recon = Rr * Eigen::Vector2d(gMajor * gMajor, gMinor * gMinor).asDiagonal() *
       Rr.transpose() / (sigma * sigma) / (unit * unit);
     bool ok2 = true;
     IM rc = pm(recon, 2, (double)(ang[2] * ang[2]), 1e-7, ok2);
@@ -221,6 +227,20 @@ static void generic(vh::Rng & r, vh::Out & out)
       res.push_back(units((rzyx(a.orientation) - T1.linear() * rzyx(p.orientation)).cwiseAbs().maxCoeff()));
       Pose3D id = Eigen::Affine3d::Identity() * p;
       res.push_back(units((id.position - p.position).norm() / 100)); res.push_back(units((rzyx(id.orientation) - rzyx(p.orientation)).cwiseAbs().maxCoeff()));
+      // a history of nearly equal transforms (a frame turning by micro-radians per step, a finite-difference probe): each call
+      // acts with its OWN transform
+      {
+        Eigen::Affine3d Tn = T1;
+        for (int step = 0; step < 3; ++step) {
+          Eigen::Vector3d ax(u(), u(), u()); if (ax.norm() < 1e-3) {ax = Eigen::Vector3d::UnitX();}
+          Tn.linear() = Tn.linear() * Eigen::AngleAxisd(std::pow(10.0, -8 + 3 * std::fabs(u())) * (r.coin() ? 1 : -1), ax.normalized()).toRotationMatrix();
+          if (r.coin()) {Tn.translation() += Eigen::Vector3d(u(), u(), u()) * 1e-6;}
+          if (!safe(Tn, p)) {break;}
+          Pose3D an = Tn * p;
+          res.push_back(units((an.position - (Tn * p.position)).norm() / 100));
+          res.push_back(units((rzyx(an.orientation) - Tn.linear() * rzyx(p.orientation)).cwiseAbs().maxCoeff()));
+        }
+      }
       if (safe(T2, a) && safe(T2 * T1, p)) {
         Pose3D b = T2 * a, c = (T2 * T1) * p;
         res.push_back(units((b.position - c.position).norm() / 100)); res.push_back(units((rzyx(b.orientation) - rzyx(c.orientation)).cwiseAbs().maxCoeff()));
